@@ -171,14 +171,17 @@ impl NormalizedTimeDuration {
                 // c. Let total be DivideNormalizedTimeDuration(norm, divisor).
                 let total = self.divide(divisor as i64);
                 let non_zero_divisor = unsafe { NonZeroU128::new_unchecked(divisor.into()) };
+                // NOTE: what is rounded is the whole duration with its days counted as 24 hours,
+                // not the time part alone (the parity seen by halfEven depends on the days).
+                let norm_with_days = self.add_days(days.as_())?;
                 // d. Set norm to ? RoundNormalizedTimeDurationToIncrement(norm, divisor × increment, roundingMode).
-                let norm = self.round_inner(
+                let norm = norm_with_days.round_inner(
                     non_zero_divisor
                         .checked_mul(options.increment.as_extended_increment())
                         .temporal_unwrap()?,
                     options.rounding_mode,
                 )?;
-                (days, norm, Some(total))
+                (FiniteF64::default(), norm, Some(total))
             }
             _ => return Err(TemporalError::assert()),
         };
